@@ -743,6 +743,11 @@ func ruleFreshResults(c *Check, w *World, tb *TB, rule string, fns []*ssa.Functi
 				case r.Op == "call" && strings.HasPrefix(r.Sym, "(*sync.Pool).Get"):
 					ok = false
 					c.Bad(rule, FuncName(f), fmt.Sprintf("result#%d", i), "result shares memory with a pooled buffer", w.Pos(f.Pos()))
+				case r.Op == "calldyn" && len(r.Args) > 0 && (r.Args[0].Op == "gval" || r.Args[0].Op == "global") && modulePkgOfGlobal(r.Args[0].Sym):
+					// produced by a function value kept in package state (sync.OnceValue, a memoising closure): every
+					// caller may be handed the same memory
+					ok = false
+					c.Bad(rule, FuncName(f), fmt.Sprintf("result#%d", i), "result is produced by the function value stored in "+r.Args[0].Sym+" (a memoised value): callers share its memory", w.Pos(f.Pos()))
 				}
 			}
 		}
